@@ -440,7 +440,10 @@ def runTrace (fuel : Nat) : St → List Tok → Nat → Nat → Bool → TraceRe
   | s, [], _, n, bad => .ok s n bad
   | s, t :: ts, i, n, bad =>
     let name := t.role ++ ":" ++ t.site
-    if t.site == "asm.spawn" then
+    if t.site.startsWith "obs.hold." then
+      -- during the hold: a Stop caller is waiting and the loop is alive in the model too
+      if s.kWait > 0 && s.lp != .off then runTrace fuel s ts (i + 1) n bad else .obsMismatch i name s
+    else if t.site == "asm.spawn" then
       -- the spawn is part of `loop.start` / `loop.processed` in the model: exactly one step is pending now
       if s.asm == 1 then runTrace fuel s ts (i + 1) n bad else .obsMismatch i name s
     else if t.site.startsWith "obs.failed." then
@@ -619,11 +622,24 @@ def chkRpcRestart : List Tok → Nat → Bool → Option String
       else chkRpcRestart ts inflight stopRet
     else chkRpcRestart ts inflight stopRet
 
+/-- implementation only: while the core loop was held at a gate (the run alive) the pending Stop call returned -/
+def chkHold : List Tok → Option String
+  | [] => none
+  | t :: ts =>
+    if t.site.startsWith "obs.hold." then
+      match (t.site.drop 9).toString.splitOn "." with
+      | [r, st] =>
+        if r != "0" then some s!"C10:stop-returned-while-running a Stop call returned while the core loop was still alive (held at a gate, GetState() = {st}): the source is not inactive, its goroutines have not exited"
+        else chkHold ts
+      | _ => chkHold ts
+    else chkHold ts
+
 /-- Oracle clauses that need nothing but the implementation's output: every call returned, the last call issued
 was a Stop ⇒ the source reports Inactive; a Start issued in these schedules (always on a source whose Stops have
 returned) is never refused by `SetStateStarting`. -/
 def chkImplOnly (ln : Line) (toks : List Tok) (calls : List (String × Nat)) (fin : Fin) : Option String :=
-  if fin.hang != 0 || calls.any (fun c => c.2 == 2) then
+  if (chkHold toks).isSome then chkHold toks
+  else if fin.hang != 0 || calls.any (fun c => c.2 == 2) then
     some "C10:hang a Start/Stop call did not return (watchdog)"
   else if (chkAsmOverlap toks 0).isSome then chkAsmOverlap toks 0
   else if (chkRpcRestart toks 0 false).isSome then chkRpcRestart toks 0 false
@@ -678,6 +694,7 @@ def judgeRun (ln : Line) (toks0 : List Tok) (calls : List (String × Nat)) (fin 
             (if countSite toks "start.startRunFailed" > 0 then ["startRunFailed"] else []) ++
             (if ln.sched == "stopDecided" then ["gated", "selfEndInsideStop"] else []) ++
             (if ln.sched == "rpc" then ["rpcLayer", "gated"] else []) ++
+            (if ln.sched == "holdStop" then ["stopHeldLong", "gated"] else []) ++
             (if countSite toks "asm.spawn" > 0 then ["acquisitionSteps", "gated"] else []) ++
             (if countSite toks "sc.start.refused" > 0 then ["startRefusedWhileActive"] else []) ++
             (if ln.sched == "rnd" || ln.sched == "stopAt" || ln.sched == "reuse" || ln.sched == "timing" then ["gated"] else []) ++
